@@ -87,6 +87,7 @@ type op09 struct {
 	Tax      string `json:"tax,omitempty"`    // 18-decimal mantissas
 	Ratio    string `json:"ratio,omitempty"`
 	Base     string `json:"base,omitempty"`
+	FeeSym   string `json:"fee_sym,omitempty"` // params: symbol of the token the issue/mint fee is quoted in ("" = stake)
 }
 
 type tok struct {
@@ -100,6 +101,7 @@ type tok struct {
 	native                bool
 	fracBurn              bool            // a fractional (in main units) burn succeeded
 	oldOwners             map[string]bool // previous owners
+	restored              bool            // went through a genesis export/import
 }
 
 func (t *tok) unit() *big.Int { return gen.Pow10(int(t.scale)) }
@@ -115,6 +117,8 @@ type m09 struct {
 	tax    *big.Int // mantissas (x 10^18)
 	ratio  *big.Int
 	base   *big.Int
+	feeSym string // symbol of the fee token (params.IssueTokenBaseFee.Denom)
+	nReimp int
 	cls    map[string]bool
 	nt     bool
 	avoid5 bool
@@ -129,6 +133,7 @@ func newC09() pbt.Machine[op09] {
 	if p.IssueTokenBaseFee.Denom != c09FeeDenom {
 		panic("unexpected fee denom " + p.IssueTokenBaseFee.Denom)
 	}
+	m.feeSym = c09FeeDenom
 	// the pre-registered native token
 	nt := v1.GetNativeToken()
 	t := &tok{symbol: nt.Symbol, minUnit: nt.MinUnit, name: nt.Name, scale: nt.Scale, initial: nt.InitialSupply, max: nt.MaxSupply,
@@ -166,6 +171,17 @@ func (m *m09) issueFee(symbol string) *big.Int {
 func (m *m09) mintFee(symbol string) *big.Int {
 	f := new(big.Int).Mul(m.issueFee(symbol), m.ratio)
 	return f.Quo(f, one18)
+}
+
+// feeTok is the token the fee is quoted in; the fee is charged in its min unit (fee x 10^scale).
+func (m *m09) feeTok() *tok { return m.bySym[m.feeSym] }
+
+func (m *m09) issueFeeMin(symbol string) *big.Int {
+	return new(big.Int).Mul(m.issueFee(symbol), m.feeTok().unit())
+}
+
+func (m *m09) mintFeeMin(symbol string) *big.Int {
+	return new(big.Int).Mul(m.mintFee(symbol), m.feeTok().unit())
 }
 
 func (m *m09) taxOf(fee *big.Int) *big.Int {
@@ -260,7 +276,10 @@ func decMant(t *rapid.T, label string) string {
 	case 4:
 		return "999999999999999999"
 	case 5:
-		return "1000000000000000001" // invalid (> 1)
+		if rapid.IntRange(0, 2).Draw(t, label+"/invalid") == 0 {
+			return "1000000000000000001" // invalid (> 1)
+		}
+		return gen.Pow10(rapid.IntRange(0, 17).Draw(t, label+"/pow")).String() // 10^-18 .. 0.1
 	default:
 		return new(big.Int).Mod(gen.Bits(t, label+"/bits", 61), new(big.Int).Add(one18, big.NewInt(1))).String()
 	}
@@ -274,6 +293,11 @@ func (m *m09) Next(t *rapid.T) op09 {
 	switch {
 	case k < 20: // issue
 		op := op09{Kind: "issue", Who: rapid.SampledFrom([]int{0, 0, 1, 1, 2, 3, 4}).Draw(t, "who")}
+		if ft := m.feeTok(); !ft.native && rapid.IntRange(0, 2).Draw(t, "feeHolder") != 0 {
+			if i := m.userIdx(ft.owner); i >= 0 {
+				op.Who = i // the fee token's owner is the likeliest holder of the fee denom
+			}
+		}
 		op.Symbol = rapid.SampledFrom(c09Symbols).Draw(t, "symbol")
 		op.MinUnit = rapid.SampledFrom(c09MinUnits).Draw(t, "minUnit")
 		op.Name = "n"
@@ -324,7 +348,7 @@ func (m *m09) Next(t *rapid.T) op09 {
 		op.Mintable = rapid.IntRange(0, 3).Draw(t, "mintable") != 0
 		return op
 
-	case k < 40: // edit
+	case k < 39: // edit
 		tk := m.pickToken(t)
 		op := op09{Kind: "edit", Symbol: tk.symbol, Who: m.pickWho(t, tk, 75), Name: v1.DoNotModify}
 		if rapid.IntRange(0, 3).Draw(t, "rename") == 0 {
@@ -367,7 +391,7 @@ func (m *m09) Next(t *rapid.T) op09 {
 		op.MintEdit = rapid.SampledFrom([]string{"", "", "", "true", "false"}).Draw(t, "mintEdit")
 		return op
 
-	case k < 62: // mint
+	case k < 60: // mint
 		tk := m.pickToken(t)
 		op := op09{Kind: "mint", MinUnit: tk.minUnit, Symbol: tk.symbol, Who: m.pickWho(t, tk, 80)}
 		op.To = rapid.SampledFrom([]int{toSelf, toSelf, toSelf, 0, 1, 2, 3, 5, idxCollector, idxFresh}).Draw(t, "to")
@@ -425,7 +449,7 @@ func (m *m09) Next(t *rapid.T) op09 {
 		}
 		return op
 
-	case k < 80: // burn
+	case k < 76: // burn
 		tk := m.pickToken(t)
 		op := op09{Kind: "burn", MinUnit: tk.minUnit, Symbol: tk.symbol}
 		// prefer a holder
@@ -482,13 +506,13 @@ func (m *m09) Next(t *rapid.T) op09 {
 		op.Amount = v.String()
 		return op
 
-	case k < 90: // transfer ownership
+	case k < 85: // transfer ownership
 		tk := m.pickToken(t)
 		op := op09{Kind: "xfer", Symbol: tk.symbol, Who: m.pickWho(t, tk, 75)}
 		op.To = rapid.SampledFrom([]int{0, 1, 2, 3, 4, 5, 0, 1, 2, idxCollector, idxFresh}).Draw(t, "to")
 		return op
 
-	case k < 94: // plain bank transfer of a token
+	case k < 88: // plain bank transfer of a token
 		tk := m.pickToken(t)
 		op := op09{Kind: "send", MinUnit: tk.minUnit, Who: rapid.IntRange(0, 3).Draw(t, "who"), To: rapid.IntRange(0, 5).Draw(t, "to")}
 		bal := m.c.Balance(m.c.E.Users[op.Who].Addr, tk.minUnit).BigInt()
@@ -498,6 +522,9 @@ func (m *m09) Next(t *rapid.T) op09 {
 		}
 		op.Amount = v.String()
 		return op
+
+	case k >= 96: // restart of the token module from its exported genesis
+		return op09{Kind: "reimport", Who: whoGov}
 
 	default: // params
 		op := op09{Kind: "params", Who: whoGov}
@@ -518,6 +545,25 @@ func (m *m09) Next(t *rapid.T) op09 {
 			op.Base = fmt.Sprint(rapid.IntRange(2, 400).Draw(t, "baseSmall"))
 		default:
 			op.Base = fmt.Sprint(rapid.IntRange(1, 10000000).Draw(t, "base"))
+		}
+		// fee quoted in an issued token (symbol != min unit, scale > 0 wherever the history has one)
+		if len(m.order) > 1 && rapid.IntRange(0, 3).Draw(t, "feeTok?") == 0 {
+			var cand []string
+			for _, sym := range m.order[1:] {
+				if tk := m.bySym[sym]; tk.symbol != tk.minUnit {
+					cand = append(cand, sym)
+				}
+			}
+			if len(cand) == 0 {
+				cand = m.order[1:]
+			}
+			op.FeeSym = rapid.SampledFrom(cand).Draw(t, "feeSym")
+			if gen.BigOf(op.Base).BitLen() > 64 {
+				op.Base = "60000" // keep fee x 10^scale inside the integer range
+			}
+			if rapid.IntRange(0, 3).Draw(t, "affordable") != 0 {
+				op.Base = fmt.Sprint(rapid.IntRange(0, 50).Draw(t, "baseTiny")) // main units of a token with a small supply
+			}
 		}
 		return op
 	}
@@ -548,17 +594,15 @@ func (m *m09) Apply(op op09) error {
 		whoAddr = c09Addr(e, op.Who)
 	}
 	who := whoAddr.String()
-	stake := c.Balance(whoAddr, c09FeeDenom).BigInt()
+	feeDenom := m.feeTok().minUnit
+	stake := c.Balance(whoAddr, feeDenom).BigInt() // what the actor holds of the fee denom
 
-	payFee := func(fee *big.Int) {
+	payFee := func(fee *big.Int) { // fee in min units of the fee token
 		tax := m.taxOf(fee)
 		burn := new(big.Int).Sub(fee, tax)
-		exp.Add(whoAddr, c09FeeDenom, new(big.Int).Neg(fee))
-		exp.Add(c09Collector, c09FeeDenom, tax)
-		exp.Supply(c09FeeDenom, new(big.Int).Neg(burn))
-		if tax.Sign() > 0 && burn.Sign() > 0 {
-			m.cls["fee-split-both-parts"] = true
-		}
+		exp.Add(whoAddr, feeDenom, new(big.Int).Neg(fee))
+		exp.Add(c09Collector, feeDenom, tax)
+		exp.Supply(feeDenom, new(big.Int).Neg(burn))
 	}
 
 	switch op.Kind {
@@ -573,7 +617,7 @@ func (m *m09) Apply(op op09) error {
 				effMax = op.Initial
 			}
 		}
-		fee := m.issueFee(op.Symbol)
+		fee := m.issueFeeMin(op.Symbol)
 		switch {
 		case len(op.Name) == 0 || len(op.Name) > 32 || !lowerAlnum(op.Symbol, 3, 64) || !lowerAlnum(op.MinUnit, 3, 64) ||
 			op.Initial > 100000000000 || effMax < op.Initial || op.Scale > 18:
@@ -581,9 +625,17 @@ func (m *m09) Apply(op op09) error {
 		case m.bySym[op.Symbol] != nil:
 			v = mustReject("C09/symbol-reused", "symbol already identifies a token")
 			m.cls["symbol-collision-attempt"] = true
+			if m.bySym[op.Symbol].restored {
+				m.cls["issue-colliding-with-restored-token"] = true
+				m.cls["issue-colliding-with-restored-symbol"] = true
+			}
 		case m.byMin[op.MinUnit] != nil:
 			v = mustReject("C09/min-unit-reused", "min unit already identifies a token")
 			m.cls["min-unit-collision-attempt"] = true
+			if m.byMin[op.MinUnit].restored {
+				m.cls["issue-colliding-with-restored-token"] = true
+				m.cls["issue-colliding-with-restored-min-unit"] = true
+			}
 		case stake.Cmp(fee) < 0:
 			v = mustReject("C09/fee-not-charged", "owner cannot pay the issue fee")
 			m.cls["issue-fee-unaffordable"] = true
@@ -640,6 +692,9 @@ func (m *m09) Apply(op op09) error {
 			if op.MintEdit != "" {
 				tk.mintable = op.MintEdit == "true"
 			}
+			if tk.restored {
+				m.cls["edit-after-reimport"] = true
+			}
 		}
 
 	case "mint", "burn":
@@ -684,11 +739,11 @@ func (m *m09) Apply(op op09) error {
 				}
 			case to.Equals(c09Collector):
 				v = mustReject("C09/mint-to-blocked", "recipient is a blocked module account")
-			case stake.Cmp(m.mintFee(tk.symbol)) < 0:
+			case stake.Cmp(m.mintFeeMin(tk.symbol)) < 0:
 				v = mustReject("C09/fee-not-charged", "owner cannot pay the mint fee")
 			}
 			if tk != nil {
-				fee := m.mintFee(tk.symbol)
+				fee := m.mintFeeMin(tk.symbol)
 				payFee(fee)
 				exp.Add(to, tk.minUnit, amount)
 				exp.Supply(tk.minUnit, amount)
@@ -704,6 +759,9 @@ func (m *m09) Apply(op op09) error {
 					m.feePaid(fee)
 					if op.Legacy {
 						m.cls["legacy-mint"] = true
+					}
+					if tk.restored {
+						m.cls["mint-after-reimport"] = true
 					}
 				}
 			}
@@ -732,6 +790,9 @@ func (m *m09) Apply(op op09) error {
 					if tk.owner != who {
 						m.cls["burn-by-non-owner-holder"] = true
 					}
+					if tk.restored {
+						m.cls["burn-after-reimport"] = true
+					}
 				}
 			}
 		}
@@ -753,6 +814,9 @@ func (m *m09) Apply(op op09) error {
 			tk.oldOwners[tk.owner] = true
 			tk.owner = to.String()
 			m.cls["ownership-transferred"] = true
+			if tk.restored {
+				m.cls["ownership-transferred-after-reimport"] = true
+			}
 		}
 
 	case "send":
@@ -770,7 +834,14 @@ func (m *m09) Apply(op op09) error {
 		tax, ratio, base := gen.BigOf(op.Tax), gen.BigOf(op.Ratio), gen.BigOf(op.Base)
 		p.TokenTaxRate = sdkmath.LegacyNewDecFromBigIntWithPrec(tax, 18)
 		p.MintTokenFeeRatio = sdkmath.LegacyNewDecFromBigIntWithPrec(ratio, 18)
-		p.IssueTokenBaseFee = sdk.Coin{Denom: c09FeeDenom, Amount: gen.ToInt(base)}
+		feeSym := op.FeeSym
+		if feeSym == "" {
+			feeSym = c09FeeDenom
+		}
+		if m.bySym[feeSym] == nil {
+			return pbt.Failf("harness/bad-op", "fee symbol %q names no token of the model", feeSym)
+		}
+		p.IssueTokenBaseFee = sdk.Coin{Denom: feeSym, Amount: gen.ToInt(base)}
 		msg = &v1.MsgUpdateParams{Authority: who, Params: p}
 		switch {
 		case tax.Cmp(one18) > 0 || ratio.Cmp(one18) > 0:
@@ -779,9 +850,59 @@ func (m *m09) Apply(op op09) error {
 			v = mustReject("C09/params-by-non-authority", "parameter change by a user")
 		}
 		commit = func() {
-			m.tax, m.ratio, m.base = tax, ratio, base
+			m.tax, m.ratio, m.base, m.feeSym = tax, ratio, base, feeSym
 			m.cls["params-changed"] = true
+			if tax.Sign() == 0 {
+				m.cls["params-tax-0"] = true
+			}
+			if tax.Cmp(one18) == 0 {
+				m.cls["params-tax-1"] = true
+			}
+			if base.Cmp(big.NewInt(3)) <= 0 {
+				m.cls["params-tiny-base-fee"] = true
+			}
+			if ratio.Sign() > 0 && ratio.Cmp(gen.Pow10(12)) <= 0 {
+				m.cls["params-tiny-mint-ratio"] = true
+			}
+			if ratio.Sign() == 0 {
+				m.cls["params-mint-ratio-0"] = true
+			}
+			if ft := m.feeTok(); ft.symbol != ft.minUnit {
+				m.cls["params-fee-denom-symbol!=min-unit"] = true
+			}
 		}
+
+	case "reimport":
+		// restart of the token module from its own exported genesis: params, every token record and the burned
+		// totals are carried; the model stays as it is
+		if _, stage, err := c.Reimport(tokentypes.ModuleName); err != nil {
+			return pbt.Failf("C09/reimport-"+stage, "token genesis round trip with %d tokens: %v", len(m.order), err)
+		}
+		if got := chain.Diff(before, c.Snapshot()); !got.Empty() {
+			return pbt.Failf("C09/reimport-moved-coins", "genesis round trip changed balances: %s", got)
+		}
+		m.nReimp++
+		m.cls["reimport"] = true
+		for _, sym := range m.order {
+			t := m.bySym[sym]
+			t.restored = true
+			if !t.native {
+				m.cls["reimport-with-issued-tokens"] = true
+			}
+			if t.burned.Sign() > 0 {
+				m.cls["reimport-with-burned-tally"] = true
+			}
+			if len(t.oldOwners) > 0 {
+				m.cls["reimport-after-ownership-transfer"] = true
+			}
+			if !t.native && t.supply.Cmp(t.cap()) == 0 {
+				m.cls["reimport-with-token-at-cap"] = true
+			}
+		}
+		if m.feeSym != c09FeeDenom {
+			m.cls["reimport-with-issued-fee-token"] = true
+		}
+		return m.invariants()
 
 	default:
 		return pbt.Failf("harness/bad-op", "unknown op kind %q", op.Kind)
@@ -814,19 +935,43 @@ func (m *m09) Apply(op op09) error {
 }
 
 func (m *m09) feePaid(fee *big.Int) {
+	ft := m.feeTok()
+	tax := m.taxOf(fee)
+	burn := new(big.Int).Sub(fee, tax)
 	if fee.Sign() > 0 {
 		m.cls["fee-paid"] = true
+		switch {
+		case tax.Sign() == 0:
+			m.cls["fee-with-zero-tax-share"] = true // everything is burned
+		case burn.Sign() == 0:
+			m.cls["fee-with-zero-burn-share"] = true // everything goes to the fee pool
+		default:
+			m.cls["fee-split-both-parts"] = true
+		}
+		if !ft.native {
+			m.cls["fee-paid-in-issued-token"] = true
+		}
+		if m.nReimp > 0 {
+			m.cls["fee-after-reimport"] = true
+		}
+	} else {
+		m.cls["fee-zero"] = true
 	}
-	// the fee burn reduces the native token's circulating amount
-	nat := m.bySym[c09FeeDenom]
-	nat.supply = new(big.Int).Sub(nat.supply, new(big.Int).Sub(fee, m.taxOf(fee)))
+	// the burned part of the fee reduces the fee token's circulating amount (it is not a MsgBurnToken: no tally)
+	ft.supply = new(big.Int).Sub(ft.supply, burn)
 }
 
 func (m *m09) noteNonOwner(tk *tok, who string) {
 	m.cls["non-owner-attempt"] = true
+	if tk.restored {
+		m.cls["non-owner-attempt-after-reimport"] = true
+	}
 	if tk.oldOwners[who] {
 		m.cls["old-owner-op-after-transfer"] = true
 		m.nt = true
+		if tk.restored {
+			m.cls["old-owner-op-after-reimport"] = true
+		}
 	}
 }
 
@@ -921,6 +1066,12 @@ func (m *m09) invariants() error {
 	if n != len(gotBurn) {
 		return pbt.Failf("C09/burn-tally", "burn tally lists %v, model has %d burned denoms", gotBurn, n)
 	}
+	// parameters read back as set (also after a restart)
+	p := k.GetParams(c.Ctx)
+	if p.TokenTaxRate.BigInt().Cmp(m.tax) != 0 || p.MintTokenFeeRatio.BigInt().Cmp(m.ratio) != 0 ||
+		p.IssueTokenBaseFee.Denom != m.feeSym || p.IssueTokenBaseFee.Amount.BigInt().Cmp(m.base) != 0 {
+		return pbt.Failf("C09/params-mismatch", "params read %+v, model tax=%s ratio=%s base=%s%s", p, m.tax, m.ratio, m.base, m.feeSym)
+	}
 	// nothing may stay in the token module account
 	if bal := c.E.App.BankKeeper.GetAllBalances(c.Ctx, c09Module); !bal.IsZero() {
 		return pbt.Failf("C09/module-account-nonzero", "token module account holds %s", bal)
@@ -942,7 +1093,8 @@ func (m *m09) Classify() (bool, []string) {
 	return m.nt, cl
 }
 
-const c09Rule = "rapid state machine over issue/edit/mint/burn/transfer-owner/bank-send/update-params (v1 and legacy v1beta1 mint/burn), owners, old owners, " +
+const c09Rule = "rapid state machine over issue/edit/mint/burn/transfer-owner/bank-send/update-params (tax 0..1 incl. both ends, tiny base fees and mint ratios, fee quoted in stake or in an issued token with symbol != min unit)/" +
+	"restart of the token module from its exported genesis (v1 and legacy v1beta1 mint/burn), owners, old owners, " +
 	"non-owners and poor accounts, scales 0..18, symbols/min units from overlapping 8-word pools plus malformed ones, initial/max at their limits, amounts relative to " +
 	"the remaining cap and to 10^scale; non-trivial = history with a fractional (in main units) burn followed by a max-supply edit or a mint of that token by its owner, or " +
 	"an ownership transfer followed by an owner-only operation by the old owner; distinct by SHA-256 of the op list"
